@@ -31,7 +31,7 @@ CHECKS = {
          "7 C04", "Single-port fan-in and parameter ports are covered by the correspondence, not by the network theorems."),
  "C05": ("Coq proof (deadlock freedom for every reachable state by a blame argument, strictly decreasing potential, finished-implies-upstream-finished, completeness at the end) + T1 conformance of runProcs / Run / Sink + T3 termination and at-return snapshots + T3-replay of the logs through the extracted NetA step function",
          "Deadlock freedom and termination are proved for all merge-free balanced acyclic networks with capacity >= 1 and all schedules; the program's own snapshot right after Run returns is checked for every predicted output and for leftovers on shapes with several leaves, driver processes, port-less processes, chains longer than the buffers.",
-         "7 C05 and 11.9", "C05_not_early is stated for file edges: a parameter feeder may close after its consumer has finished (C05_param_feeder_may_lag); Run waits for it through the WaitGroup of runProcs."),
+         "7 C05, 11.9, 11.15, 11.17, 11.20", "C05_not_early is stated for file edges: a parameter feeder may close after its consumer has finished (C05_param_feeder_may_lag); Run waits for it through the WaitGroup of runProcs. NetSlots.v composes the network with the slot machine (C05_with_slots_*: no deadlock, termination, all done, maximal runs complete, for every slot count). Fan-in on every in-port of a process with a buffer smaller than the number of upstreams can deadlock: finding D21, recorded (C05_fanin_small_buffer_refuted); D19 (unconsumed streaming out-port) repaired."),
  "C08": ("Coq proof (emission order = creation order = arrival order, as an invariant over all schedules) + T1 conformance of the task queue handling + T3 recorders with inverted completion orders + T3-replay of the logs through the extracted NetA+Ghost step function + Port.v: per-upstream order through fan-in (C08_fanin_order), replayed on fan-in and sink ports",
          "For every configuration and schedule the sequence on an out-edge is the image of the created tasks in order; recorder components on real runs with later tasks finishing first must log exactly that order.",
          "7 C08", ""),
@@ -48,8 +48,8 @@ CHECKS = {
          "Closure theorems for all acyclic graphs with fuel = number of processes; the readiness check precedes every process start (skeleton fact); real workflows with one unconnected port must exit non-zero without a command or a file, RunTo runs must produce exactly the closure's tasks and files as computed by the reference evaluator.",
          "7 C16 and 11.10", "Ready.v: every started process is covered by the readiness check (theorem), the pre-repair check is refuted (D18, fixed)."),
  "C17": ("Coq proof on the FIFO producer/consumer transition system (bytes conserved for every schedule, payload and pipe capacity; computed witnesses for the one-slot deadlock, the audit-link race and the undrained re-run) + T1 conformance + T3 streaming pairs and chains with payloads around the pipe buffer and the history run / run again",
-         "Byte conservation, progress (no stuck state with >= 2 slots and pipe capacity >= 1) and termination (decreasing measure) are theorems over all schedules, payloads and pipe capacities for one producer / consumer pair; n pairs and chains are covered by the correspondence runs (payload sizes 0 .. 200000, both exit orders, two-piece writes); the kernel's FIFO semantics is modelled, not verified; the audit-link race is a recorded finding (D12).",
-         "7 C17", "The theorems are about one pair; several pairs sharing the slots are covered by the correspondence."),
+         "Byte conservation, progress (no stuck state when a slot is available for the producer and one for the executing consumer, pipe capacity >= 1) and termination (decreasing measure) are theorems over all schedules, payloads and pipe capacities, for one producer / consumer pair and for any number of pairs sharing the slot counter (StreamN.v: C17_pairs_*), with the consumer executing or -- on a re-run -- skipped and draining (C17_rerun_untouched, C17_rerun_drained); chains are covered by the correspondence runs (payload sizes 0 .. 200000, both exit orders, two-piece writes); the kernel's FIFO semantics is modelled, not verified; the audit-link race is a recorded finding (D12).",
+         "7 C17, 11.15, 11.17", "The pair machine inside a network is not composed with NetA; the sink draining an unconsumed stream (repair of D19) is the drain mode of the pair machine."),
  "C18": ("Coq proof about the model (one carrier per sub-stream, one task per carrier, join expansion for every length, resolvability) + T1 conformance of NewTask / createTasks + T2 join branch of formatCommand + T3 sub-streams of length 0 .. buffer+3",
          "The executable model's join branch is proved to expand to the members in order with the separator, and is tied to the code by T2 on Task.Command and by T3 runs whose output concatenates the members through the expanded placeholder; audit Upstream keys are checked on the real records.",
          "7 C18", ""),
@@ -67,7 +67,7 @@ CHECKS = {
          "7 C11 and 11.8", "The byte-level round trip (C11_roundtrip_bytes) covers record trees whose strings are 7-bit; bytes >= 0x80 are left to the correspondence with encoding/json."),
  "C12": ("Coq proof of lockset soundness over acquire/release/access traces + computed lock-discipline obligations on the skeletons regenerated from the source (tags map, audit record pointer, remote-port maps, slot deposit loop) + race-detector runs as the search for failing inputs",
          "Partial by nature: a data race is a property of the Go memory model. Proved: two accesses made under a common mutex are ordered by happens-before in every valid trace; computed on every run: all modelled accesses to the shared audit record and port maps hold the owning mutex, and task / process / tagging code touches the tags only through the guarded accessors. Fan-out / fan-in / multi-core / tagging workflows built with -race supply failing inputs (exit 66).",
-         "7 C12 and 11.11", "C12_no_writes_to_package_variables is evaluated on the table of package-level assignments regenerated from the source. Not covered by any theorem: completeness of the access enumeration (aliasing), channel hand-offs, logging, the runtime's own synchronisation."),
+         "7 C12, 11.11, 11.18", "D20 (FromStr feeder vs. wiring / RunTo traversal on InParamPort.RemotePorts) found by a seed sweep, repaired; the locked accessors are part of the computed discipline. C12_no_writes_to_package_variables is evaluated on the table of package-level assignments regenerated from the source. Not covered by any theorem: completeness of the access enumeration (aliasing), channel hand-offs, logging, the runtime's own synchronisation."),
 }
 
 def main():
